@@ -4,7 +4,7 @@
    lattice points and for the points of its own boundary samplers.  TLC evaluates the denotation In /
    NearBd of Geometry.tla:
      interior:  farther than Eps from the boundary  =>  bit = In
-     boundary:  no boundary within EpsFar  =>  rejected ;  own boundary samples  =>  accepted
+     boundary:  no boundary within EpsFar  =>  rejected ;  own boundary samples that lie on the boundary  =>  accepted
    and "exactly one truth value per input row".                                                      *)
 EXTENDS Geometry, TLC, TLCExt, Json, IOUtils
 Traces == JsonDeserialize(IOEnv.TRACE_FILE)
@@ -14,7 +14,10 @@ EpsFar == 6
 Q(p) == [val |-> p.val, w |-> p.w]
 E(t) == t.scenario.expr
 BadFar(t) == {i \in DOMAIN t.pts : t.bbits[i] = 1 /\ ~NearBd(E(t), Q(t.pts[i]), EpsFar)}
-OwnBad(t) == {j \in DOMAIN t.own : t.own[j].exc = "" /\ \E i \in DOMAIN t.own[j].bits : t.own[j].bits[i] = 0}
+\* a rejected own sample counts against MEMBERSHIP only if the point really lies on the boundary of the denotation (whether
+\* the sampler may produce points off the boundary is property C01, judged by Trace_C01)
+OwnBad(t) == {j \in DOMAIN t.own : t.own[j].exc = "" /\ \E i \in DOMAIN t.own[j].bits :
+                  t.own[j].bits[i] = 0 /\ NearBdBox(E(t), Q(t.own[j].pts[i]), Eps)}
 \* <<clause, deviation, number of judged interior points>>
 Check(t) ==
     IF "driver_error" \in DOMAIN t THEN <<"driver-error", "", 0>>
